@@ -1,0 +1,72 @@
+//go:build verif
+
+// Contracts for the kvc verifier (see /verif/DESIGN.md). This file is comment-only:
+// with the "verif" build tag off it is invisible, with it on it adds no code.
+//
+// The socket, channels, goroutines, mutexes and timers are environment operations
+// (DESIGN §2.4.5): nsend/lastsend/sendsame describe the ghost log of Socket.Send,
+// nsent/lastsent/nrecv/lastrecv/closed the ghost state of a channel, held a mutex.
+
+package knx
+
+// ---------- C04: tunnel receiver ----------
+
+//@ func (conn *Tunnel) pushInbound(msg cemi.Message)
+//@   props C04
+//@   ghost nsent lastsent nspawn spawnarg
+//@   requires !closed(conn.inbound)
+//@   ensures [handoff] nsent(conn.inbound) == old(nsent(conn.inbound)) + 1 && lastsent(conn.inbound) == msg
+//@   assigns nothing
+
+//@ func (conn *Tunnel) handleTunnelReq(req *knxnet.TunnelReq, seq *uint8) (err error)
+//@   props C04
+//@   ghost nsent lastsent nspawn spawnarg nsend lastsend sendsame
+//@   requires req != nil && seq != nil && conn.sock != nil && !closed(conn.inbound)
+//@   requires sep(seq, conn) && sep(seq, req)
+//@   let mine = req.Channel == conn.channel
+//@   let tcp = conn.config.UseTCP
+//@   let e0 = old(*seq)
+//@   let deliver = mine && (tcp || req.SeqNumber == e0)
+//@   let ack = mine && !tcp && (req.SeqNumber == e0 || req.SeqNumber == e0 - 1)
+//@   ensures [counter] *seq == (deliver && !tcp ? e0 + 1 : e0)
+//@   ensures [delivered] nsent(conn.inbound) == old(nsent(conn.inbound)) + (deliver ? 1 : 0)
+//@   ensures [payload] deliver ==> lastsent(conn.inbound) == req.Payload
+//@   ensures [acked] nsend(conn.sock) == old(nsend(conn.sock)) + (ack ? 1 : 0)
+//@   ensures [ackframe] ack ==> typeis(lastsend(conn.sock), *knxnet.TunnelRes) && lastsend(conn.sock).(*knxnet.TunnelRes).Channel == conn.channel && lastsend(conn.sock).(*knxnet.TunnelRes).SeqNumber == req.SeqNumber && lastsend(conn.sock).(*knxnet.TunnelRes).Status == 0
+//@   ensures [rejected] !mine || (!tcp && !ack) ==> err != nil
+//@   assigns *seq
+
+// ---------- C03: tunnel sender ----------
+
+//@ func (conn *Tunnel) requestTunnel(data cemi.Message) (err error)
+//@   props C03
+//@   ghost
+//@   noterm
+//@   requires conn.sock != nil && !held(conn.seqMu) && conn.config.ResendInterval > 0
+//@   let tcp = conn.config.UseTCP
+//@   let s0 = old(conn.seqNumber)
+//@   ensures [unlocked] !held(conn.seqMu)
+//@   ensures [sent] nsend(conn.sock) >= old(nsend(conn.sock)) + 1
+//@   ensures [identical] old(sendsame(conn.sock)) ==> sendsame(conn.sock)
+//@   ensures [frame] typeis(lastsend(conn.sock), *knxnet.TunnelReq) && lastsend(conn.sock).(*knxnet.TunnelReq).Channel == conn.channel && lastsend(conn.sock).(*knxnet.TunnelReq).SeqNumber == (tcp ? 0 : s0) && lastsend(conn.sock).(*knxnet.TunnelReq).Payload == data
+//@   ensures [tcp] tcp ==> nsend(conn.sock) == old(nsend(conn.sock)) + 1 && conn.seqNumber == s0 && nrecv(conn.ack) == old(nrecv(conn.ack))
+//@   ensures [success] !tcp && err == nil ==> conn.seqNumber == s0 + 1 && nrecv(conn.ack) >= old(nrecv(conn.ack)) + 1 && lastrecv(conn.ack).SeqNumber == s0 && lastrecv(conn.ack).Status == 0
+//@   ensures [counter] !tcp ==> conn.seqNumber == s0 || (conn.seqNumber == s0 + 1 && lastrecv(conn.ack).SeqNumber == s0)
+//@   ensures [badstatus] !tcp && conn.seqNumber == s0 + 1 && lastrecv(conn.ack).Status != 0 ==> err != nil
+//@   ensures [timing] !tcp && gcount("nafter") > old(gcount("nafter")) ==> gval("lastticker.d") == int64(conn.config.ResendInterval) && gval("lastafter.d") == int64(conn.config.ResponseTimeout) && gcount("nticker") == old(gcount("nticker")) + 1 && gcount("nafter") == old(gcount("nafter")) + 1
+//@   assigns conn.seqNumber
+//@   loop 0 invariant held(conn.seqMu) && conn.seqNumber == s0 && !tcp
+//@   loop 0 invariant nsend(conn.sock) >= old(nsend(conn.sock)) + 1 && (old(sendsame(conn.sock)) ==> sendsame(conn.sock)) && nrecv(conn.ack) >= old(nrecv(conn.ack))
+//@   loop 0 invariant typeis(lastsend(conn.sock), *knxnet.TunnelReq) && lastsend(conn.sock).(*knxnet.TunnelReq) == req
+//@   loop 0 invariant req.Channel == conn.channel && req.SeqNumber == s0 && req.Payload == data
+//@   loop 0 invariant gval("lastticker.d") == int64(conn.config.ResendInterval) && gval("lastafter.d") == int64(conn.config.ResponseTimeout) && gcount("nticker") == old(gcount("nticker")) + 1 && gcount("nafter") == old(gcount("nafter")) + 1
+//@   loop 0 assigns nothing
+//@   loop 0 ghost nsend lastsend sendsame nrecv lastrecv
+
+//@ func (conn *Tunnel) handleTunnelRes(res *knxnet.TunnelRes) (err error)
+//@   props C03
+//@   ghost nsent lastsent nspawn spawnarg nrecv lastrecv nafter period lastafter.d
+//@   requires res != nil && conn.config.ResendInterval > 0
+//@   ensures [foreign] res.Channel != conn.channel ==> err != nil && nsent(conn.ack) == old(nsent(conn.ack))
+//@   ensures [offered] nsent(conn.ack) > old(nsent(conn.ack)) ==> res.Channel == conn.channel && lastsent(conn.ack) == res && nsent(conn.ack) == old(nsent(conn.ack)) + 1
+//@   assigns nothing
